@@ -870,7 +870,16 @@ func reifyDuration(
 	// error, it must not wrap around
 	const maxSeconds = int64(math.MaxInt64 / time.Second)
 
-	switch v := val.(type) {
+	// a reference stands for what it evaluates to: a number behind it means
+	// seconds, like a number written in place
+	node := val
+	if ref, ok := val.(*cfgDynamic); ok {
+		if resolved, rerr := ref.getValue(opts.opts); rerr == nil && resolved != nil {
+			node = resolved
+		}
+	}
+
+	switch v := node.(type) {
 	case *cfgInt:
 		if v.i < -maxSeconds || maxSeconds < v.i {
 			err = ErrOverflow
